@@ -30,16 +30,16 @@ def P(pid, streams, oracle, rule, assumptions, examples=0, extra_modules=()):
 
 # (stream, cases quick, cases thorough); oracle = (id, budget quick, budget thorough)
 PROPS = {
-    'C01': P('C01', [('codepair', 10000, 80000), ('lines', 600, 4800), ('inlineops', 7500, 60000), ('link', 10000, 80000), ('entity', 10000, 80000), ('url', 10000, 80000), ('smap', 300, 2400), ('block', 6000, 48000), ('inline', 5000, 40000)], ('C01', 30000, 240000),
+    'C01': P('C01', [('codepair', 10000, 80000), ('lines', 600, 4800), ('inlineops', 7500, 60000), ('link', 10000, 80000), ('entity', 10000, 80000), ('url', 10000, 80000), ('smap', 300, 2400), ('block', 6000, 48000), ('inline', 5000, 40000), ('pipeline', 1500, 12000)], ('C01', 30000, 240000),
              "oracle: parse->render->xrender under catch_unwind on grammar/spec/mutated/adversarial/malformed documents x configuration sample (subsets, orders, max_nesting); non-trivial = contains a markdown-significant character; distinct by hash of (cfg, source)",
              ["whole-pipeline totality theorem is _partial: mechanism theorems + rule-level correspondence + oracle cover the composition",
-              "hang = wall time beyond 2 s + 1 ms/byte; stack exhaustion is covered by C02"], extra_modules=(('Block', r'progress|tokenize_spec|ruleAt'), ('Inline', r'progress|fuel|contracts'),)),
+              "hang = wall time beyond 2 s + 1 ms/byte; stack exhaustion is covered by C02"], extra_modules=(('Pipeline', r'parseDoc_panic|renderDoc_panic|doc_render_total|spliceNode_panic|sourceposNode_total'), ('Block', r'progress|tokenize_spec|ruleAt'), ('Inline', r'progress|fuel|contracts'),)),
     'C02': P('C02', [('nest', 4500, 36000)], ('C02', 3000, 20000),
              "oracle: 16 nesting families x sizes up to the budget x max_nesting in {0,1,3,10,100}; recursion gauge (hook) and tree depth compared with 4*max_nesting+16; non-trivial = size >= 150",
              ["actual stack exhaustion is a runtime fact; the model bounds frames and depth, the oracle observes the gauge on a 3 GiB-stack thread"]),
-    'C03': P('C03', [('render', 15000, 120000), ('noderender', 4000, 32000)], ('C03', 20000, 160000),
+    'C03': P('C03', [('render', 15000, 120000), ('noderender', 4000, 32000), ('pipeline', 1500, 12000)], ('C03', 20000, 160000),
              "render stream: escape_html inputs and random event scripts (hostile payloads, empty strings, NUL, LF-terminated texts before cr) replayed into the REAL HTMLRenderer in both modes; oracle: recogniser of the safe output language on rendered hostile/generated documents under html-free configurations; non-trivial = payload with & < or quote / script with cr and >= 3 events",
-             ["attribute names pushed into node.attrs by plugins are &'static str; the theorems assume they are `data-sourcepos` (what the shipped sourcepos plugin pushes) - shown necessary by a witness"], extra_modules=('NodeRender',)),
+             ["attribute names pushed into node.attrs by plugins are &'static str; the theorems assume they are `data-sourcepos` (what the shipped sourcepos plugin pushes) - shown necessary by a witness"], extra_modules=(('Pipeline', r'doc_safe_output|doc_output_html_free|doc_output_renderable|final_hyps|parseDoc_final'), 'NodeRender',)),
     'C04': P('C04', [('link', 15000, 120000), ('inline', 5000, 40000), ('htmldecode', 8000, 64000)], ('C04', 30000, 240000),
              "oracle: scheme spellings (case, named/decimal/hex references, escapes, embedded controls, percent escapes) x 8 syntactic positions; every Link/Image/Autolink url and every rendered href/src is fed to a WHATWG-style scheme extractor",
              ["browser behaviour is modelled by WHATWG URL pre-processing (strip C0/space at the ends, drop TAB/LF/CR) + ASCII-case-insensitive scheme"], extra_modules=(('Inline', r'pipeline|fromPipeline'), 'HtmlDecode')),
@@ -49,18 +49,18 @@ PROPS = {
     'C06': P('C06', [('block', 6000, 48000), ('lines', 900, 7200)], ('C06', 15000, 120000),
              "oracle: both metamorphic relations on all tab-free spec inputs (with and without html) and generated/mutated tab-free documents; tree equality modulo the computed shift for the quote relation",
              ["list relation: every line (blank ones included) indented by the marker width, D contains a non-blank line"], extra_modules=(('Block', r'bqScan|tableOk|tokenize_spec'),)),
-    'C07': P('C07', [('pstate', 10000, 80000)], ('C07', 7500, 60000),
+    'C07': P('C07', [('pstate', 10000, 80000), ('pipeline', 1500, 12000)], ('C07', 7500, 60000),
              "oracle: histories of 2-9 documents (reference definitions then uses, unclosed code spans, emphasis lower-bound triggers, fences) on one parser, each compared with a fresh parser (tree with ranges, HTML, XHTML)",
-             ["per-document state is local to one parse call: static scan of interior-mutable items"]),
+             ["per-document state is local to one parse call: static scan of interior-mutable items"], extra_modules=(('Pipeline', r'doc_pure|doc_refs_local|inline_state_local|doc_deterministic'),)),
     'C08': P('C08', [('ruler', 10000, 80000), ('pstate', 10000, 80000)], ('C08', 15000, 120000),
              "ruler stream: add/alias/before/after/remove/contains/iter histories on one REAL Ruler (with its cache) vs the cache-free model; oracle: add/remove/parse histories over 8 rule kinds (custom block, inline with markers x ( e-acute +, core, shipped escape and hr) compared with the same history without intermediate parses",
              []),
     'C09': P('C09', [('ruler', 20000, 160000), ('pstate', 10000, 80000)], ('C09', 20000, 160000),
              "ruler stream: random rule sets (0-9 rules, aliases, absent marks, self references, duplicates, all priorities) -> order or panic class of the REAL Ruler vs Lean compile; oracle: independent greedy specification in Rust; non-trivial = at least two constraints",
              ["marks are modelled as Nat; HashMap/HashSet as lists observed through membership only"]),
-    'C10': P('C10', [('lines', 900, 7200), ('block', 6000, 48000)], ('C10', 20000, 160000),
+    'C10': P('C10', [('lines', 900, 7200), ('block', 6000, 48000), ('pipeline', 1500, 12000)], ('C10', 20000, 160000),
              "oracle: LF->CRLF, LF->CR and final-newline relations on the real crate for all generators x configuration sample incl. sourcepos",
-             []),
+             [], extra_modules=(('Pipeline', r'doc_line_ending_reduction|render_ranges_irrelevant|erase_joinNode|spliceNode_congr'),)),
     'C11': P('C11', [('codepair', 10000, 80000), ('lines', 600, 4800), ('block', 6000, 48000)], ('C11', 20000, 160000),
              "oracle: payloads (fence look-alikes, entity/escape-like text, tabs, NUL, blank lines) x fenced/indented/span x nesting depth 0-3; node content and rendered <code> compared with the payload",
              ["span payloads: continuation lines do not start a block construct (block structure wins in CommonMark)"], extra_modules=(('Block', r'verbatim'),)),
@@ -70,12 +70,12 @@ PROPS = {
     'C13': P('C13', [('refs', 12500, 100000)], ('C13', 20000, 160000),
              "oracle: k definitions (case/whitespace/case-fold variants, in quotes and items, before/after the use) x 4 use forms; expected target = first definition of the same base label",
              ["U+0131 dotless i is additionally identified with i/I by lower-then-upper normalisation (documented, not tested as a non-match)"]),
-    'C14': P('C14', [('inlineops', 10000, 80000), ('block', 6000, 48000), ('inline', 5000, 40000)], ('C14', 25000, 200000),
+    'C14': P('C14', [('inlineops', 10000, 80000), ('block', 6000, 48000), ('inline', 5000, 40000), ('pipeline', 1500, 12000)], ('C14', 25000, 200000),
              "oracle: WF on every parsed tree for all generators x configurations containing the paragraph rule",
-             [], extra_modules=(('Block', r'list_shape'), ('Inline', r'no_placeholder|allNF'),)),
-    'C15': P('C15', [('smap', 450, 3600)], ('C15', 1500, 12000),
+             [], extra_modules=(('Pipeline', r'doc_tree_wf|fragmentsJoin_nf|fragmentsJoin_mem|spliceList_kinds|spliceList_wf|spliceList_every|joinNode_wf_aux|joinNode_every|sourceposNode_wf|parseBlocks_wf|tokenize_wf|runChain_para|parseDoc_stages'), ('Block', r'list_shape'), ('Inline', r'no_placeholder|allNF'),)),
+    'C15': P('C15', [('smap', 450, 3600), ('pipeline', 1500, 12000)], ('C15', 1500, 12000),
              "smap stream: texts with lines around the checkpoint spacing (14-18, 30-34, 47-49, 64-70 chars), multi-byte characters, CR/LF/CRLF runs; EVERY offset 0..len+2 of each text; oracle: the two counting functions in Rust",
-             []),
+             [], extra_modules=(('Pipeline', r'doc_sourcepos_spec|sourceposAttrs_eq|sourceposNode_total'),)),
     'C16': P('C16', [('codepair', 15000, 120000), ('block', 6000, 48000), ('inline', 5000, 40000)], ('C16', 12500, 100000),
              "oracle: dual-run look-ahead probe (hook) over all generators x configurations (+ custom rules), HTML with probe on = HTML with probe off, custom block rule in both look-ahead styles after every predecessor kind",
              [], extra_modules=(('Block', r'silent|testRules|real_false'), ('Inline', r'silent|skip|memo|ruleEmph'),)),
@@ -86,9 +86,9 @@ PROPS = {
     'C18': P('C18', [('alt', 12500, 100000)], ('C18', 20000, 160000),
              "oracle: ![D](x) for generated inline descriptions; alt attribute vs plain-text display of the image node's own children",
              []),
-    'C19': P('C19', [('render', 15000, 120000), ('noderender', 4000, 32000)], ('C19', 15000, 120000),
+    'C19': P('C19', [('render', 15000, 120000), ('noderender', 4000, 32000), ('pipeline', 1500, 12000)], ('C19', 15000, 120000),
              "render stream as C03; noderender stream: events recorded from REAL trees by an independent Renderer vs the per-kind render model on the dumped tree, and real render()/xrender() vs serialize(render model); oracle: independent event-recording Renderer over real trees of all generators x configurations: render twice, tree unchanged, built-in output = reference serialisation of recorded events (HTML and XHTML), length difference = 2 x void elements",
-             [], extra_modules=('NodeRender',)),
+             [], extra_modules=(('Pipeline', r'doc_render_total|doc_deterministic|doc_pure|render_ranges_irrelevant'), 'NodeRender',)),
     'C20': P('C20', [('eset', 15000, 120000), ('tree', 10000, 80000)], ('C20', 15000, 120000),
              "eset stream: op sequences (1-60 ops) over eight Rust types incl. zero-sized and same-layout types on the REAL ErasedSet vs model; tree stream: walk / walk_mut with a mutating callback on random trees; oracle: HashMap<TypeId,_> reference and manual stack pre-order",
              []),
